@@ -20,6 +20,8 @@ import (
 
 // Plan is one schedule perturbation of the compiler process.
 type Plan struct {
+	// ShowReq adds -show-requirements (a report on stdout; the artefacts must not depend on it)
+	ShowReq    bool `json:",omitempty"`
 	GoMaxProcs int
 	// Sched is the value of VERIF_BONDGO_SCHED ("point=k,…": k yields; "point=kus": sleep k µs) read by
 	// the verif-tagged hook in pkg/bondgo. Ignored by a binary without the hook.
@@ -29,6 +31,9 @@ type Plan struct {
 const (
 	// the property's deadline for the compiler
 	hardTimeout = 10 * time.Second
+	// spinTicks: processor time (USER_HZ ticks, 100 per second) after which a compiler that is still
+	// running at the deadline is judged to be looping
+	spinTicks = 600
 )
 
 // softTimeout: a run normally takes 0.3-0.5 s (process start-up dominates). When the child has gone idle (see idleOrExpired) or, at the latest, after this long the process is asked for its goroutine
@@ -100,11 +105,13 @@ func classifyDump(dump string) string {
 	blocks := strings.Split(dump, "\n\n")
 	assignerSend, monitorAlive, mainBlocked := false, false, false
 	progressing := false
+	seen := 0
 	for _, b := range blocks {
 		m := goroutineHdr.FindStringSubmatch(b)
 		if m == nil {
 			continue
 		}
+		seen++
 		state := m[1]
 		if strings.HasPrefix(state, "running") || strings.HasPrefix(state, "runnable") || strings.HasPrefix(state, "syscall") {
 			// some goroutine of the compiler was still executing when the deadline passed: the process was
@@ -129,7 +136,9 @@ func classifyDump(dump string) string {
 	if assignerSend && !monitorAlive && mainBlocked {
 		return "hang:D8"
 	}
-	if progressing {
+	if progressing || seen == 0 {
+		// no dump at all (the child had not even reached its signal handler, or was killed before it could
+		// print): no evidence of a deadlock, the machine is loaded
 		return "slow"
 	}
 	return "hang"
@@ -159,6 +168,9 @@ func runOnce(src string, rsize int, mpm bool, p Plan, deadline time.Duration, pr
 	} else {
 		args = append(args, "-save-machine", "m.json")
 	}
+	if p.ShowReq {
+		args = append(args, "-show-requirements")
+	}
 	cmd := exec.Command(bin, args...)
 	cmd.Dir = dir
 	gmp := p.GoMaxProcs
@@ -176,6 +188,7 @@ func runOnce(src string, rsize int, mpm bool, p Plan, deadline time.Duration, pr
 	go func() { done <- cmd.Wait() }()
 	var werr error
 	timedOut := false
+	var cpuTicks uint64
 	expired := time.After(deadline)
 	if probe {
 		expired = idleOrExpired(cmd.Process.Pid, deadline, done)
@@ -184,6 +197,7 @@ func runOnce(src string, rsize int, mpm bool, p Plan, deadline time.Duration, pr
 	case werr = <-done:
 	case <-expired:
 		timedOut = true
+		cpuTicks, _, _ = procIdle(cmd.Process.Pid)
 		_ = cmd.Process.Signal(syscall.SIGQUIT) // the Go runtime prints every goroutine and exits
 		select {
 		case werr = <-done:
@@ -196,6 +210,13 @@ func runOnce(src string, rsize int, mpm bool, p Plan, deadline time.Duration, pr
 	if timedOut {
 		res.Dump = res.Stderr
 		res.Status = classifyDump(res.Dump)
+		if res.Status == "slow" && !probe && cpuTicks >= spinTicks {
+			// not blocked, but it has burnt far more processor time than any compilation needs (a normal
+			// run uses well under 0.2 s): a loop that does not end. Processor time, unlike the wall clock,
+			// does not depend on the load of the machine.
+			res.Status = "hang"
+			res.Dump = fmt.Sprintf("(spinning: %d clock ticks of processor time consumed)\n", cpuTicks) + res.Dump
+		}
 		if probe && res.Status != "hang:D8" {
 			res.Status = "probe-inconclusive"
 		}
